@@ -537,6 +537,9 @@ zix_path_lexically_relative(ZixAllocator* const allocator,
   const size_t path_len = strlen(path);
   const size_t rel_len  = (n_up * 3U) + path_len - a.range.begin;
   char* const  rel      = (char*)zix_calloc(allocator, rel_len + 1U, 1U);
+  if (!rel) {
+    return NULL;
+  }
 
   // Write leading up-references
   size_t offset = 0U;
